@@ -2,6 +2,13 @@
 
 package dvid
 
+import (
+	"encoding/json"
+	"fmt"
+	"os"
+	"sync"
+)
+
 // VerifPointFunc, when installed by a verification harness, is called at named
 // read-modify-write sites.  It may block (scheduler gate) or record an event.
 var VerifPointFunc func(site string, id uint64)
@@ -11,4 +18,91 @@ func VerifPoint(site string, id uint64) {
 	if f := VerifPointFunc; f != nil {
 		f(site, id)
 	}
+}
+
+// VerifEventFunc, when installed, receives one event per repository-manager state change
+// (and per refused request) from the place in the code where the change becomes visible,
+// called while the lock that protects the changed state is still held.
+var VerifEventFunc func(kind string, fields ...interface{})
+
+// VerifEvent reports a state change (kind + alternating field names and values).
+func VerifEvent(kind string, fields ...interface{}) {
+	if f := VerifEventFunc; f != nil {
+		f(kind, fields...)
+	}
+}
+
+var (
+	verifEventMu   sync.Mutex
+	verifEventSeq  uint64
+	verifEventFile *os.File
+)
+
+// With VERIF_EVENT_FILE=<path> in the environment every event is appended to that file as
+// one JSON line {"seq":n,"pid":p,"ev":kind,<fields>}.  seq is a per-process counter taken
+// under the sink's own mutex while the caller still holds the lock of the state it changed,
+// so the order of the lines is an order in which the changes took effect (no wall clock).
+func init() {
+	path := os.Getenv("VERIF_EVENT_FILE")
+	if path == "" {
+		return
+	}
+	f, err := os.OpenFile(path, os.O_APPEND|os.O_CREATE|os.O_WRONLY, 0644)
+	if err != nil {
+		fmt.Fprintf(os.Stderr, "VERIF_EVENT_FILE %q: %v\n", path, err)
+		os.Exit(3)
+	}
+	verifEventFile = f
+	pid := os.Getpid()
+	VerifEventFunc = func(kind string, fields ...interface{}) {
+		m := make(map[string]interface{}, len(fields)/2+3)
+		for i := 0; i+1 < len(fields); i += 2 {
+			m[fmt.Sprint(fields[i])] = verifEventValue(fields[i+1])
+		}
+		m["ev"] = kind
+		m["pid"] = pid
+		verifEventMu.Lock()
+		verifEventSeq++
+		m["seq"] = verifEventSeq
+		b, err := json.Marshal(m)
+		if err == nil {
+			_, err = verifEventFile.Write(append(b, '\n'))
+		}
+		verifEventMu.Unlock()
+		if err != nil {
+			fmt.Fprintf(os.Stderr, "VERIF_EVENT_FILE write: %v\n", err)
+			os.Exit(3)
+		}
+	}
+}
+
+// verifEventValue turns identifiers into plain JSON values (strings, numbers, lists of them).
+func verifEventValue(v interface{}) interface{} {
+	switch x := v.(type) {
+	case UUID:
+		return string(x)
+	case []UUID:
+		s := make([]string, len(x))
+		for i, u := range x {
+			s[i] = string(u)
+		}
+		return s
+	case VersionID:
+		return uint64(x)
+	case []VersionID:
+		s := make([]uint64, len(x))
+		for i, u := range x {
+			s[i] = uint64(u)
+		}
+		return s
+	case InstanceID:
+		return uint64(x)
+	case RepoID:
+		return uint64(x)
+	case InstanceName:
+		return string(x)
+	case error:
+		return x.Error()
+	}
+	return v
 }
